@@ -81,6 +81,27 @@ def build_traces(path, tier, seed):
         add({"kind": kind, "dt": enc(dt), "xi": enc(xi), "a": enc_seq(a), "periods": enc_seq(periods), "raised": raised,
              "sd": enc_seq(sd), "sv": enc_seq(sv), "sa": enc_seq(sa), "q": 1},
             {"kind": kind, "n": n, "dt": dt, "xi": xi, "T_over_dt": [p / dt for p in periods], "container": type(container).__name__, "raised": raised, "shape": shape})
+    # long period lists (beyond any internal block size), in no particular order, on short records
+    for j, nper in enumerate([257, 300] if tier == "quick" else [257, 300, 513, 600, 1025, 256, 512]):
+        n = int(rng.integers(4, 14))
+        a, shape = gen.record(rng, n, amp=1.0)
+        dt = [0.01, 0.02][j % 2]
+        ratios = np.exp(rng.uniform(np.log(1.5), np.log(300.0), size=nper))
+        periods = [float(r * dt) for r in ratios]
+        if j % 2:
+            periods = [0.0] + periods[:-1]
+        xi = float([0.05, 0.0, 0.3][j % 3])
+        kind = ["pseudo", "true"][j % 2] if tier != "quick" else "pseudo"
+        fn = sdof.pseudo_response_spectra if kind == "pseudo" else sdof.true_response_spectra
+        raised = False
+        sd = sv = sa = []
+        try:
+            sd, sv, sa = fn(a, dt, np.array(periods), xi)
+        except Exception as ex:
+            raised = True
+        add({"kind": kind, "dt": enc(dt), "xi": enc(xi), "a": enc_seq(a), "periods": enc_seq(periods), "raised": raised,
+             "sd": enc_seq(sd), "sv": enc_seq(sv), "sa": enc_seq(sa), "q": 1},
+            {"kind": kind, "n": n, "dt": dt, "xi": xi, "periods": nper, "container": "ndarray (long, unsorted)", "raised": raised, "shape": shape})
     nobj = 14 if tier == "quick" else 250
     for i in range(nobj):
         n = gen.length(rng, 4, 120 if tier == "quick" else 400)
